@@ -1033,6 +1033,26 @@ def bloch_messiah(S, tol=1e-10, rounding=9):
         pmat = np.identity(2 * n)[perm, :]
         ut = uss @ pmat
 
+        # The singular value 1 is its own inverse, so its eigenspace is not split into two
+        # subspaces that are exchanged by the symplectic form. If it is repeated, a symplectic
+        # basis of the eigenspace is constructed explicitly.
+        ones = np.where(np.round(ss[:n], rounding) == 1)[0]
+        if len(ones) > 1:
+            idx = np.concatenate([ones, ones + n])
+            w = ut[:, idx].real
+            a = np.transpose(w) @ omega @ w
+            rest = np.identity(len(idx))
+            e_list, f_list = [], []
+            for _ in ones:
+                e = rest[:, np.argmax(np.linalg.norm(rest, axis=0))]
+                e = e / np.linalg.norm(e)
+                f = np.transpose(a) @ e
+                f = f / np.linalg.norm(f)
+                e_list.append(e)
+                f_list.append(f)
+                rest = rest - np.outer(e, e) @ rest - np.outer(f, f) @ rest
+            ut[:, idx] = w @ np.column_stack(e_list + f_list)
+
         # Apply a second permutation matrix to permute s
         # (and their corresonding inverses) to get the canonical symplectic form
         qomega = np.transpose(ut) @ (omega) @ ut
@@ -1059,7 +1079,7 @@ def bloch_messiah(S, tol=1e-10, rounding=9):
         pmat1 = block_diag(*(u_list + v_list))
 
         st1 = pmat1.T @ pmat @ np.diag(ss) @ pmat @ pmat1
-        ut1 = uss @ pmat @ pmat1
+        ut1 = ut @ pmat1
         v1 = np.transpose(ut1) @ u
 
     else:
